@@ -57,7 +57,20 @@ def _judge(code, res):
     try:
         s = tlsref.Suite(code, reg["name"])
     except tlsref.UnsupportedName:
-        return {"sig": "accepted-name-with-unsupported-cipher", "detail": f"{code:04X} {name}", "nontrivial": True, "key": str(code)}
+        # a registered name whose primitives the reference parser does not model (SM4, ARIA, SEED, GOST ...): all that can be said is
+        # whether the resolved primitives are the ones the name spells; anything else is reported
+        body = reg["name"].split("_WITH_", 1)[1] if "_WITH_" in reg["name"] else reg["name"][4:]
+        toks = body.split("_")
+        spelled = {"3DES": "TRIPLEDES", "SHA": "SHA1"}
+        got_c = " ".join(getattr(x, "__name__", str(x)).upper() for x in (res["CryptoAlgo"][0], res["Mode"][0]))
+        got_h = getattr(res["MAC"], "__name__", str(res["MAC"])).upper()
+        if spelled.get(toks[0], toks[0]) not in got_c:
+            return {"sig": "wrong-parameter:bulk", "detail": f"{code:04X} {name}: bulk cipher {got_c} for a name that says {toks[0]}", "nontrivial": True,
+                    "key": str(code)}
+        if spelled.get(toks[-1], toks[-1]) not in got_h:
+            return {"sig": "wrong-parameter:MAC/PRF", "detail": f"{code:04X} {name}: hash {got_h} for a name that says {toks[-1]}", "nontrivial": True,
+                    "key": str(code)}
+        return {"sig": None, "nontrivial": True, "key": str(code), "labels": ["accepted-beyond-the-reference-parser (primitive names compared only)"]}
     alg, h = _names()
     bad = []
     if res["CryptoAlgo"][0] is not alg[s.alg]:
